@@ -473,6 +473,31 @@ def to_bool(x: Value) -> BoolV:
     raise Unmodelled("text used as a truth value")
 
 
+def real_round(x: "RealV", mode: str, guard) -> "RealV":
+    """floor / ceil / round (half away from zero) / trunc of an exact fraction; the result is an integral fraction.
+    guard(null, cond) records no-overflow side conditions."""
+    neg_den = x.den < 0
+    n = z3.If(neg_den, -x.num, x.num)                 # sign-normalised: d > 0
+    d = z3.If(neg_den, -x.den, x.den)
+    q = n / d                                         # truncation toward zero
+    r = z3.SRem(n, d)
+    if mode == "trunc":
+        val = q
+    elif mode == "floor":
+        val = z3.If(z3.And(r != 0, n < 0), q - 1, q)
+    elif mode == "ceil":
+        val = z3.If(z3.And(r != 0, n > 0), q + 1, q)
+    elif mode == "round":
+        an = z3.If(n < 0, -n, n)
+        guard(x.null, z3.And(z3.BVMulNoOverflow(bv(2), an, True), z3.BVMulNoOverflow(bv(2), d, True),
+                             z3.BVAddNoOverflow(2 * an, d, True)))
+        t = (2 * an + d) / (2 * d)
+        val = z3.If(n < 0, -t, t)
+    else:
+        raise Unmodelled(mode)
+    return RealV(x.null, val, bv(1))
+
+
 FOREIGN = (1 << CW) - 1     # a character outside the alphabet (digit / sign of a number rendered as text)
 
 
